@@ -755,11 +755,26 @@ def r2_records(chk):
     from ..util import strip_shape_wrappers
 
     cvals = [kwarg(c, "coords") for c in walk_no_nested(yx.node) if isinstance(c, ast.Call) and call_name(c) == "cls" and kwarg(c, "coords") is not None]
-    from_block = len(cvals) == 1 and norm(strip_shape_wrappers(cvals[0])) == "xyzblock.coords"
+    from ..canon import Env as _Env
+
+    _yenv = _Env(yx.node)
+    from_block = len(cvals) == 1 and norm(strip_shape_wrappers(_yenv.expand(cvals[0]))) == "xyzblock.coords"
+    # names that range over the block's symbols (`for atom, symbol in zip(geom.atoms, xyzblock.symbols)`)
+    sym_names = set()
+    for l in walk_no_nested(yx.node):
+        if isinstance(l, ast.For) and "xyzblock.symbols" in norm(l.iter):
+            it_ = l.iter
+            tg_ = l.target
+            if isinstance(it_, ast.Call) and call_name(it_) == "zip" and isinstance(tg_, ast.Tuple) and len(tg_.elts) == len(it_.args):
+                sym_names |= {t_.id for t_, a_ in zip(tg_.elts, it_.args) if isinstance(t_, ast.Name) and norm(a_) == "xyzblock.symbols"}
+            elif isinstance(tg_, ast.Name) and norm(it_) == "xyzblock.symbols":
+                sym_names.add(tg_.id)
     lv = [norm(l.target.elts[-1] if isinstance(l.target, ast.Tuple) else l.target) for l in walk_no_nested(yx.node)
           if isinstance(l, ast.For) and "xyzblock.atoms" in norm(l.iter)]
     def _from_symbol(arg):
         if any(norm(arg) == f"{v}.symbol" for v in lv):
+            return True
+        if isinstance(arg, ast.Name) and arg.id in sym_names:
             return True
         if isinstance(arg, ast.Name):  # `match a.symbol: ... case symbol: Element.get(symbol)`
             for mt in [m_ for m_ in walk_no_nested(yx.node) if isinstance(m_, ast.Match) and any(norm(m_.subject) == f"{v}.symbol" for v in lv)]:
@@ -782,13 +797,15 @@ def r2_records(chk):
     gets = [c for c in walk_no_nested(yx.node) if isinstance(c, ast.Call) and norm(c.func) == "Element.get" and c.args and _from_symbol(c.args[0])]
     if gets:
         g0 = gets[0]
-        pcs = [t for t in path_conditions(yx.node, innermost_stmt(yx.node, g0)) if any(norm(x).endswith(".symbol") for x in ast.walk(t))]
+        pcs = [t for t in path_conditions(yx.node, innermost_stmt(yx.node, g0)) if any(norm(x).endswith(".symbol") or (isinstance(x, ast.Name) and x.id in sym_names) for x in ast.walk(t))]
         all_members = list(prog.enum_members(prog.cls("molli.chem.atom:Element")))
         members = [n for n in all_members if n != "Unknown"]
         lost = []
         for sym in members:
             def lookup(n, sym=sym):
                 if isinstance(n, ast.Attribute) and n.attr == "symbol":
+                    return sym
+                if isinstance(n, ast.Name) and n.id in sym_names:
                     return sym
                 if norm(n) == "Element._member_names_":
                     return all_members
@@ -805,7 +822,7 @@ def r2_records(chk):
                 raise AnalysisError(f"{yx.key}: the test that separates dummy symbols from elements (`{short(pcs[0], 50)}`) cannot be tabulated: {u}")
         chk.decide(not lost, "C08.R2", f"{yx.key}:every-element-symbol-is-looked-up", yx.where(g0), f"all {len(members)} element symbols reach Element.get",
                    f"the symbols {lost[:8]} never reach Element.get (`{short(pcs[0], 60) if pcs else ''}` sends them to the dummy branch): these elements are read back as Unknown")
-        _non_element_symbols(chk, prog, yx, pcs, g0, all_members) if getattr(chk, "_want_non_element_rule", False) else None
+        _non_element_symbols(chk, prog, yx, pcs, g0, all_members, sym_names) if getattr(chk, "_want_non_element_rule", False) else None
     hdr = [s for s in walk_no_nested(rx.node) if isinstance(s, ast.Assign) and norm(s.targets[0]) == "n_atoms"]
     # (a `None` bound to the count is the end-of-input sentinel of a reader split into helpers)
     real = [h for h in hdr if not (isinstance(h.value, ast.Constant) and h.value.value is None)]
@@ -988,7 +1005,7 @@ def r4_terminal(chk):
                    "DistanceUnit[source_units] feeds the scaling", f"{f.qualname} does not use source_units in a scaling of the coordinates")
 
 
-def _non_element_symbols(chk, prog, yx, pcs, g0, all_members):
+def _non_element_symbols(chk, prog, yx, pcs, g0, all_members, sym_names=frozenset()):
     """C10.R9 (evaluated from C10 only: accepting more dummy spellings is no violation of the xyz round trip, accepting *anything* is one of C10)."""
     from ..truth import Unknown, evaluate
     # ... and the converse: a token that names no element and is no dummy marker (a corrupted symbol column: "C1", "Zz", "1.5", "c#")
@@ -998,6 +1015,8 @@ def _non_element_symbols(chk, prog, yx, pcs, g0, all_members):
     for sym in ("C1", "Zz", "1.5", "c#", "Hh"):
         def lookup2(n, sym=sym):
             if isinstance(n, ast.Attribute) and n.attr == "symbol":
+                return sym
+            if isinstance(n, ast.Name) and n.id in sym_names:
                 return sym
             if norm(n) == "Element._member_names_":
                 return all_members
